@@ -2224,7 +2224,7 @@ func AtomCodes(vm *VM, atom, codes Term, k Cont, env *Env) *Promise {
 			case Variable:
 				return Error(InstantiationError(env))
 			case Integer:
-				if e < 0 || e > unicode.MaxRune {
+				if e < 0 || e > unicode.MaxRune || !utf8.ValidRune(rune(e)) {
 					return Error(representationError(flagCharacterCode, env))
 				}
 				_, _ = sb.WriteRune(rune(e))
@@ -2243,7 +2243,7 @@ func AtomCodes(vm *VM, atom, codes Term, k Cont, env *Env) *Promise {
 			case Variable:
 				break
 			case Integer:
-				if e < 0 || e > unicode.MaxRune {
+				if e < 0 || e > unicode.MaxRune || !utf8.ValidRune(rune(e)) {
 					return Error(representationError(flagCharacterCode, env))
 				}
 			default:
